@@ -77,6 +77,8 @@ MapApply(m, op, tab) ==
                                ELSE R(m, [vac |-> FALSE])
     [] op[1] = "retain_nonempty" -> R([x \in {y \in DOMAIN m : m[y] # <<>>} |-> m[x]], [calls |-> Cardinality(DOMAIN m)])
     [] op[1] = "retain_key_ne" -> R([x \in DOMAIN m \ {LK(k)} |-> m[x]], [calls |-> Cardinality(DOMAIN m)])
+    \* QualifierKey < str (PartialOrd<S>): how many stored keys are below the lower-cased probe
+    [] op[1] = "count_keys_lt" -> R(m, [n |-> Cardinality({x \in DOMAIN m : LexLess(x, LK(k))})])
     [] op[1] = "retain_mut_set" -> R([x \in DOMAIN m |-> k], [calls |-> Cardinality(DOMAIN m)])
     [] op[1] = "iter_mut_set" -> R([x \in DOMAIN m |-> k], [calls |-> Cardinality(DOMAIN m)])
     [] op[1] = "clear" -> R(EmptyFn, [unit |-> TRUE])
@@ -170,6 +172,7 @@ VecApply(vec, op, tab) ==
     [] op[1] = "retain_nonempty" -> V(SelectSeq(vec, LAMBDA e : e[2] # <<>>), [calls |-> Len(vec)])
     \* closure |key, _| key != probe, through PartialEq<S> for QualifierKey (case-insensitive)
     [] op[1] = "retain_key_ne" -> V(SelectSeq(vec, LAMBDA e : KeyCmp(e[1], k, tab) # 0), [calls |-> Len(vec)])
+    [] op[1] = "count_keys_lt" -> V(vec, [n |-> Cardinality({i \in 1..Len(vec) : KeyCmp(vec[i][1], k, tab) = 2})])
     [] op[1] = "retain_mut_set" -> V([i \in 1..Len(vec) |-> <<vec[i][1], k>>], [calls |-> Len(vec)])
     [] op[1] = "iter_mut_set" -> V([i \in 1..Len(vec) |-> <<vec[i][1], k>>], [calls |-> Len(vec)])
     [] op[1] = "clear" -> V(<<>>, [unit |-> TRUE])
